@@ -9,6 +9,13 @@ def lane(test, lane, quick, thorough, shards=1, **kw):
     return d
 
 
+def fuzz(test, seconds=90, procs=8):
+    """Native coverage-guided fuzzing (go test -fuzz), thorough tier only, wall-clock budget. Go's fuzzer cannot be
+    pinned to a seed: the reproducible unit is the saved input, re-judged through TestFuzzInput and the replay path."""
+    return {"test": test, "lane": "fuzz", "quick": 0, "thorough": 0, "shards": 1, "min_frac": None, "norapid": True,
+            "fuzz": True, "fuzztime": seconds, "fuzzprocs": procs, "thorough_only": True, "timeout_thorough": seconds + 600}
+
+
 PROPS["C20"] = {
     "pkg": "c20",
     "level": "exploration",
@@ -37,7 +44,7 @@ PROPS["C11"] = {
     "pkg": "c11",
     "level": "exploration",
     "technique": "bounded-exhaustive token-sequence enumeration + property-based testing (rapid) with token mutators; validity-predicate oracle; native fuzz lane in thorough",
-    "level_text": ("Every sequence of up to L spellings from a 30-entry token alphabet (L=3 quick, 4 thorough; joined with and without spaces) is "
+    "level_text": ("Every sequence of up to L spellings from a 29-entry token alphabet (L=4 quick: 1.46 M inputs, L=5 thorough: 42 M inputs; joined with and without spaces) is "
                    "enumerated completely, and random Unicode/byte strings, single/double token mutations of generated valid files and the "
                    "repository's own sources are explored, each in both fail-fast and collect-all mode, against a validity predicate: returns "
                    "within a watchdog, tree xor non-empty diagnostics, every diagnostic and node position inside the input with start<=end, "
@@ -46,13 +53,14 @@ PROPS["C11"] = {
     "rule": ("exhaustive: all sequences of length<=L over the token alphabet (incl. unterminated string/regex/block comment, bad escape, second dot, "
              "multi-byte identifier, foreign character) x 2 joiners; random: rapid strings over all runes, raw bytes, hostile fragments; mutate: "
              "bclgen valid file with token delete/insert/swap/duplicate/truncate (25% twice); corpus: repo fixtures + unmutated bclgen files. "
-             "Non-trivial: input yields at least one token (or is non-blank when the lexer rejects it); distinct by 64-bit hash of the text."),
+             "Non-trivial: input yields at least one token (or is non-blank when the lexer rejects it); distinct by 64-bit hash of the text (the enumeration shards partition the sequences; their distinct counts are summed, so a text that two different sequences spell is counted once per shard). fuzz (thorough): native go fuzzing of FuzzParse for a wall-clock budget; crashers are re-judged through the same check and replay path."),
     "assumptions": ["a line is a maximal run between \n characters; columns are counted in runes; column == line length (EOL/EOF position) is inside the file"],
     "lanes": [
-        lane("TestExhaustive", "exhaustive", 0, 0, norapid=True, shards=16, must_classes=["accepted", "parse-error", "lex-error"]),
+        lane("TestExhaustive", "exhaustive", 0, 0, norapid=True, shards=16, quick_shards=8, disjoint_shards=True, must_classes=["accepted", "parse-error", "lex-error"]),
         lane("TestRandom", "random", 30000, 150000, shards=8),
         lane("TestMutate", "mutate", 15000, 60000, shards=16, must_classes=["parse-error"]),
         lane("TestCorpus", "corpus", 5000, 20000, shards=4, must_classes=["accepted"]),
+        fuzz("FuzzParse"),
     ],
 }
 
@@ -74,6 +82,7 @@ PROPS["C09"] = {
         lane("TestCorpus", "corpus", 0, 0, norapid=True),
         lane("TestGenerated", "generated", 20000, 100000, shards=16, must_classes=["escaped-newline", "block-comment", "multiline-description", "array"]),
         lane("TestStrings", "strings", 20000, 100000, shards=8),
+        fuzz("FuzzFmt"),
     ],
 }
 
@@ -93,6 +102,7 @@ PROPS["C19"] = {
         lane("TestCorpus", "corpus", 0, 0, norapid=True),
         lane("TestGenerated", "generated", 20000, 100000, shards=16, must_classes=["has-edits", "trailing-comment", "multiline-block-comment"]),
         lane("TestLines", "lines", 30000, 150000, shards=8, must_classes=["has-edits", "two-statements-one-line", "multiline-token"]),
+        fuzz("FuzzDiffs"),
     ],
 }
 
@@ -157,6 +167,7 @@ PROPS["C06"] = {
         lane("TestDeep", "deep", 0, 0, norapid=True),
         lane("TestMutate", "mutate", 1200, 5000, shards=16),
         lane("TestQuery", "query", 20000, 80000, shards=8),
+        fuzz("FuzzDecode"),
     ],
 }
 
@@ -241,6 +252,7 @@ PROPS["C07"] = {
         lane("TestAccept", "accept", 400, 2500, shards=16),
         lane("TestGarbage", "garbage", 1500, 8000, shards=16, must_classes=["kind:mutated", "kind:bcl", "kind:bytes"]),
         lane("TestSemantic", "semantic", 400, 2500, shards=16, must_classes=["semantic:cross-file-cycle", "semantic:unknown-type", "semantic:required-and-optional"]),
+        fuzz("FuzzCompile"),
     ],
 }
 
